@@ -220,3 +220,36 @@ theorem replaceFirst_ok_shape (rs rs' : List (Region α)) (new : Region α) (mus
       · exact e4 q hq
 
 end ERP.C12
+
+namespace ERP.C12
+open ERP
+set_option linter.unusedSectionVars false
+variable {α : Type} [Field α] [LinearOrder α] [IsStrictOrderedRing α] [MathOps α] [MathSpec α]
+  [OfDecimal α]
+
+theorem replaceFirst_skip (pre : List (Region α)) (x : Region α) (post : List (Region α))
+    (new : Region α) (must : Bool) (hpre : ∀ r ∈ pre, (r.id == new.id) = false)
+    (hx : (x.id == new.id) = true) (hc : must = true → new.containsRegion x = true) :
+    replaceFirst (pre ++ x :: post) new must = .ok (pre ++ new :: post) := by
+  induction pre with
+  | nil =>
+    simp only [List.nil_append, replaceFirst, hx, if_true]
+    cases must with
+    | false => simp
+    | true => simp [hc rfl]
+  | cons r pre ih =>
+    have h1 := hpre r List.mem_cons_self
+    have ih' := ih (fun q hq => hpre q (List.mem_cons_of_mem _ hq))
+    simp only [List.cons_append, replaceFirst, h1, Bool.false_eq_true, if_false, ih']
+    rfl
+
+/-- **Updates are idempotent.** Re-sending an update that was accepted is accepted again (the new
+region being one the plugin can hold) and leaves the region list as it is. -/
+theorem update_idempotent (rs rs' : List (Region α)) (new : Region α) (must : Bool)
+    (hn : C17.Region.Proper new) (h : replaceFirst rs new must = .ok rs') :
+    replaceFirst rs' new must = .ok rs' := by
+  obtain ⟨pre, old, post, _, e2, _, e4, _⟩ := replaceFirst_ok_shape rs rs' new must h
+  rw [e2]
+  exact replaceFirst_skip pre new post new must e4 (by simp) (fun _ => C17.containsRegion_refl new hn)
+
+end ERP.C12
